@@ -544,6 +544,110 @@ Proof.
   intros E. apply escape_nil_inv in E. contradiction.
 Qed.
 
+(* ---- join_parts (the code's one level of joining, Cell.v) against joinP ---- *)
+(* the two behaviours of join_parts, the probed constant named explicitly *)
+Definition join_parts_on (sep : char) (ps : list str) : str :=
+  match ps with
+  | [p] => p ++ [sep]
+  | _ => if ends_blank ps then join_char sep ps ++ [sep] else join_char sep ps
+  end.
+
+Lemma join_parts_off_eq sep ps : join_keeps_blank_last = false -> join_parts sep ps = joinP sep ps.
+Proof. intros E. unfold join_parts, joinP. rewrite E. reflexivity. Qed.
+
+Lemma join_parts_on_eq sep ps : join_keeps_blank_last = true -> join_parts sep ps = join_parts_on sep ps.
+Proof. intros E. unfold join_parts, join_parts_on. rewrite E. reflexivity. Qed.
+
+Lemma ends_blank_lastne ps : (2 <= length ps)%nat -> lastne ps -> ends_blank ps = false.
+Proof.
+  intros Hl H. specialize (H Hl). destruct ps as [|p r]; [reflexivity|]. unfold ends_blank.
+  destruct (last (p :: r) [0]); [congruence|reflexivity].
+Qed.
+
+(* a list that does not end in the empty text is joined the same way on either tree *)
+Lemma join_parts_lastne sep ps : lastne ps -> join_parts sep ps = joinP sep ps.
+Proof.
+  intros H. destruct ps as [|p [|q r]]; [| reflexivity |].
+  - unfold join_parts, joinP. cbn [ends_blank]. rewrite andb_false_r. reflexivity.
+  - unfold join_parts, joinP. rewrite (ends_blank_lastne (p :: q :: r)); [|cbn; lia|exact H].
+    rewrite andb_false_r. reflexivity.
+Qed.
+
+(* the text with a trailing separator: every block comes back, the last one included even when empty *)
+Lemma join_char_cons2 sep p r : r <> [] -> join_char sep (p :: r) = p ++ sep :: join_char sep r.
+Proof. destruct r; [congruence|reflexivity]. Qed.
+
+Lemma join_char_snoc sep ps : ps <> [] -> join_char sep ps ++ [sep] = join_char sep (ps ++ [[]]).
+Proof.
+  induction ps as [|p r IH]; [congruence|]. intros _. destruct r as [|q r'].
+  - reflexivity.
+  - rewrite join_char_cons2 by discriminate.
+    change ((p :: q :: r') ++ [[]]) with (p :: ((q :: r') ++ [[]])).
+    rewrite (join_char_cons2 sep p ((q :: r') ++ [[]])) by discriminate.
+    rewrite <- IH by discriminate. rewrite <- app_assoc. reflexivity.
+Qed.
+
+Lemma drop_last_empty_cons2 x r : r <> [] -> drop_last_empty (x :: r) = x :: drop_last_empty r.
+Proof. destruct r; [congruence|reflexivity]. Qed.
+
+Lemma drop_last_empty_snoc l : l <> [] -> drop_last_empty (l ++ [[]]) = l.
+Proof.
+  induction l as [|x r IH]; [congruence|]. intros _. destruct r as [|y r'].
+  - reflexivity.
+  - specialize (IH ltac:(discriminate)). cbn [app] in IH |- *.
+    change (drop_last_empty (x :: y :: r' ++ [[]])) with (x :: drop_last_empty (y :: r' ++ [[]])).
+    rewrite IH. reflexivity.
+Qed.
+
+Lemma split_join_trailing sep ps :
+  is_a_sep sep -> ps <> [] -> Forall (closed sep) ps ->
+  split_by_separator (join_char sep ps ++ [sep]) sep = SList ps.
+Proof.
+  intros Hsep Hne Hall. unfold split_by_separator. rewrite join_char_snoc by exact Hne.
+  rewrite segs_join; [|exact Hsep|destruct ps; discriminate|].
+  2:{ apply Forall_app. split; [exact Hall|]. constructor; [apply closed_nil|constructor]. }
+  destruct ps as [|p r]; [congruence|].
+  assert (E : exists a b, r ++ [[]] = a :: b) by (destruct r; eexists; eexists; reflexivity).
+  destruct E as (a & b & E). cbn [app]. rewrite E.
+  change (SList (drop_last_empty (p :: a :: b)) = SList (p :: r)). rewrite <- E.
+  change (p :: r ++ [[]]) with ((p :: r) ++ [[]]). rewrite drop_last_empty_snoc by discriminate. reflexivity.
+Qed.
+
+(* repaired tree: every non-empty list of closed blocks comes back, whatever its last block is *)
+Lemma split_join_parts sep ps :
+  join_keeps_blank_last = true ->
+  is_a_sep sep -> ps <> [] -> Forall (closed sep) ps ->
+  split_by_separator (join_parts sep ps) sep = SList ps.
+Proof.
+  intros E Hsep Hne Hall. rewrite (join_parts_on_eq _ _ E).
+  destruct ps as [|p [|q r]]; [congruence| |].
+  - cbn [join_parts_on]. inversion Hall; subst. apply split_join_one; assumption.
+  - unfold join_parts_on. destruct (ends_blank (p :: q :: r)) eqn:Eb.
+    + apply split_join_trailing; assumption.
+    + apply split_join_many; [assumption|assumption|cbn; lia|].
+      unfold ends_blank in Eb. destruct (last (p :: q :: r) [0]); [discriminate|discriminate].
+Qed.
+
+Lemma join_parts_nonempty sep ps : ps <> [] -> join_parts sep ps <> [].
+Proof.
+  destruct ps as [|p [|q r]]; [congruence| |]; intros _.
+  - cbn [join_parts]. destruct p; discriminate.
+  - unfold join_parts. change (join_char sep (p :: q :: r)) with (p ++ sep :: join_char sep (q :: r)).
+    destruct (join_keeps_blank_last && ends_blank (p :: q :: r)); destruct p; discriminate.
+Qed.
+
+Lemma closed_join_parts sep sep' ps :
+  (sep' =? esc_char) = false -> (sep' =? sep) = false ->
+  Forall (closed sep) ps -> closed sep (join_parts sep' ps).
+Proof.
+  intros H1 H2 Hall. destruct ps as [|p [|q r]].
+  - unfold join_parts. cbn [ends_blank]. rewrite andb_false_r. apply closed_nil.
+  - cbn [join_parts]. inversion Hall; subst. apply closed_app; [assumption|apply closed_plain; assumption].
+  - unfold join_parts. destruct (join_keeps_blank_last && ends_blank (p :: q :: r)).
+    + apply closed_app; [apply closed_join_char; assumption|apply closed_plain; assumption].
+    + apply closed_join_char; assumption.
+Qed.
+
 (* ---- the values of depth <= 2, typed ---- *)
 Inductive elem := EStr (s : str) | ELst (ss : list str).
 Definition elem_nv (e : elem) : nv :=
@@ -572,21 +676,37 @@ Proof.
   cbn [map]. rewrite IH. cbn [join_from_lists]. rewrite escape_string_one_pass. reflexivity.
 Qed.
 
+Lemma join_strs_parts d sep ss :
+  sep_at d = Some sep -> join_from_lists d (Lst (map Str ss)) = Some (join_parts sep (map escape ss)).
+Proof. intros H. cbn [join_from_lists]. rewrite H, join_all_strs. reflexivity. Qed.
+
 Lemma join_strs d sep ss :
-  sep_at d = Some sep -> join_from_lists d (Lst (map Str ss)) = Some (joinP sep (map escape ss)).
+  sep_at d = Some sep -> lastne ss -> join_from_lists d (Lst (map Str ss)) = Some (joinP sep (map escape ss)).
 Proof.
-  intros H. cbn [join_from_lists]. rewrite H, join_all_strs.
-  unfold joinP. destruct (map escape ss) as [|p [|q r]]; reflexivity.
+  intros H Hl. rewrite (join_strs_parts d sep ss H). rewrite join_parts_lastne; [reflexivity|apply lastne_escape, Hl].
 Qed.
 
-Lemma join_elem e : join_from_lists 1 (elem_nv e) = Some (piece e).
+(* the text the code writes for an element, on the tree at hand *)
+Definition pieceJ (e : elem) : str :=
+  match e with EStr s => escape s | ELst ss => join_parts sep1 (map escape ss) end.
+
+Lemma pieceJ_piece e : elem_wf e -> pieceJ e = piece e.
 Proof.
-  destruct e as [s|ss]; cbn [elem_nv piece].
+  destruct e as [s|ss]; cbn [elem_wf pieceJ piece]; [reflexivity|].
+  intros (_ & Hl & _). apply join_parts_lastne, lastne_escape, Hl.
+Qed.
+
+Lemma join_elemJ e : join_from_lists 1 (elem_nv e) = Some (pieceJ e).
+Proof.
+  destruct e as [s|ss]; cbn [elem_nv pieceJ].
   - cbn [join_from_lists]. rewrite escape_string_one_pass. reflexivity.
-  - apply join_strs. reflexivity.
+  - apply join_strs_parts. reflexivity.
 Qed.
 
-Lemma join_all_elems es :
+Lemma join_elem e : elem_wf e -> join_from_lists 1 (elem_nv e) = Some (piece e).
+Proof. intros H. rewrite join_elemJ, (pieceJ_piece e H). reflexivity. Qed.
+
+Lemma join_all_elemsJ es :
   (fix join_all (l : list nv) : option (list str) :=
      match l with
      | [] => Some []
@@ -594,17 +714,19 @@ Lemma join_all_elems es :
                  | Some a, Some t => Some (a :: t)
                  | _, _ => None
                  end
-     end) (map elem_nv es) = Some (map piece es).
+     end) (map elem_nv es) = Some (map pieceJ es).
 Proof.
   induction es as [|e r IH]; [reflexivity|].
-  cbn [map]. rewrite IH, join_elem. reflexivity.
+  cbn [map]. rewrite IH, join_elemJ. reflexivity.
 Qed.
 
-Lemma join_elems es :
-  join_from_lists 0 (Lst (map elem_nv es)) = Some (joinP sep0 (map piece es)).
+Lemma join_elemsJ es :
+  join_from_lists 0 (Lst (map elem_nv es)) = Some (join_parts sep0 (map pieceJ es)).
+Proof. cbn [join_from_lists sep_at]. rewrite join_all_elemsJ. reflexivity. Qed.
+
+Lemma map_pieceJ_piece es : Forall elem_wf es -> map pieceJ es = map piece es.
 Proof.
-  cbn [join_from_lists sep_at]. rewrite join_all_elems.
-  unfold joinP. destruct (map piece es) as [|p [|q r]]; reflexivity.
+  induction 1 as [|e r He Hr IH]; [reflexivity|]. cbn [map]. rewrite IH, (pieceJ_piece e He). reflexivity.
 Qed.
 
 Lemma piece_closed e : closed sep0 (piece e).
@@ -663,12 +785,20 @@ Proof.
   intros d. destruct r as [|y r']; [left; reflexivity|]. right. apply IH. discriminate.
 Qed.
 
+Lemma join_elems es :
+  Forall elem_wf es -> outer_lastne es ->
+  join_from_lists 0 (Lst (map elem_nv es)) = Some (joinP sep0 (map piece es)).
+Proof.
+  intros Hall Hl. rewrite join_elemsJ, (map_pieceJ_piece es Hall).
+  rewrite join_parts_lastne; [reflexivity|apply outer_lastne_piece; assumption].
+Qed.
+
 Theorem elems_roundtrip es :
   es <> [] -> outer_lastne es -> Forall elem_wf es ->
   join_from_lists 0 (Lst (map elem_nv es)) = Some (joinP sep0 (map piece es)) /\
   split_into_lists (joinP sep0 (map piece es)) = trim (Lst (map elem_nv es)).
 Proof.
-  intros Hne Hlast Hall. split; [apply join_elems|].
+  intros Hne Hlast Hall. split; [apply join_elems; assumption|].
   unfold split_into_lists. rewrite split_joinP.
   - cbn [cleanse trim]. f_equal. rewrite !map_map.
     apply map_ext_in. intros e Hin. apply piece_parses.
@@ -860,6 +990,164 @@ Example u0001_roundtrip :
   | Some t => split_into_lists (escape [t]) = Str [esc_char]
   end.
 Proof. vm_compute. try split; reflexivity. Qed.
+
+(* ---- lists that END IN A BLANK element (outside the property's domain; finding
+   packed-model-blank-value-under-nonblank-default of C07: the pair [name, ""] of a packed model) ----
+   wfb_any = wfb without the conditions on the last element: depth <= 2, lists non-empty, strings str_ok.
+   On the repaired tree (join_keeps_blank_last) every such value comes back; on the other tree the
+   two-element list [a, ""] does not. *)
+Definition elem_any (v : nv) : bool :=
+  match v with
+  | Str s => str_ok s
+  | Lst l => negb (is_nil l) && forallb leaf_ok l
+  end.
+Definition wfb_any (v : nv) : bool :=
+  match v with
+  | Str s => str_ok s
+  | Lst l => negb (is_nil l) && forallb elem_any l
+  end.
+
+Definition elem_wf_any (e : elem) : Prop :=
+  match e with
+  | EStr s => tmp_free s
+  | ELst ss => ss <> [] /\ Forall tmp_free ss
+  end.
+
+Lemma pieceJ_closed e : closed sep0 (pieceJ e).
+Proof.
+  destruct e as [s|ss]; cbn [pieceJ].
+  - apply closed_escape. left. reflexivity.
+  - apply closed_join_parts.
+    + apply eqb_sym_false, esc_ne_sep1.
+    + rewrite N.eqb_sym. apply sep0_ne_sep1.
+    + apply Forall_closed_escape. left. reflexivity.
+Qed.
+
+Lemma pieceJ_parses e :
+  join_keeps_blank_last = true -> elem_wf_any e ->
+  cleanse (split_res_to_nv (split_by_separator (pieceJ e) sep1)) = trim (elem_nv e).
+Proof.
+  intros E. destruct e as [s|ss]; cbn [elem_wf_any pieceJ elem_nv].
+  - intros H. rewrite split_closed by (apply closed_escape; right; reflexivity).
+    cbn [split_res_to_nv cleanse trim]. rewrite cleanse_escape by exact H. reflexivity.
+  - intros (Hne & Hall).
+    rewrite split_join_parts.
+    + cbn [split_res_to_nv cleanse trim]. rewrite map_cleanse_strs by exact Hall. reflexivity.
+    + exact E.
+    + right. reflexivity.
+    + destruct ss; [congruence|discriminate].
+    + apply Forall_closed_escape. right. reflexivity.
+Qed.
+
+Theorem elems_roundtrip_any es :
+  join_keeps_blank_last = true -> es <> [] -> Forall elem_wf_any es ->
+  join_from_lists 0 (Lst (map elem_nv es)) = Some (join_parts sep0 (map pieceJ es)) /\
+  split_into_lists (join_parts sep0 (map pieceJ es)) = trim (Lst (map elem_nv es)).
+Proof.
+  intros E Hne Hall. split; [apply join_elemsJ|].
+  unfold split_into_lists. rewrite split_join_parts.
+  - cbn [cleanse trim]. f_equal. rewrite !map_map.
+    apply map_ext_in. intros e Hin. apply pieceJ_parses; [exact E|].
+    rewrite Forall_forall in Hall. apply Hall, Hin.
+  - exact E.
+  - left. reflexivity.
+  - destruct es; [congruence|discriminate].
+  - clear. induction es; constructor; [apply pieceJ_closed|assumption].
+Qed.
+
+Lemma to_elem_inv_any v : elem_any v = true -> elem_nv (to_elem v) = v /\ elem_wf_any (to_elem v).
+Proof.
+  destruct v as [s|l]; cbn [elem_any to_elem elem_nv elem_wf_any].
+  - intros H. split; [reflexivity|]. exact H.
+  - intros H. apply andb_true_iff in H as [H1 H3].
+    destruct (leaves_inv l H3) as [E F]. rewrite E. split; [reflexivity|].
+    split; [|exact F]. destruct l; [discriminate|discriminate].
+Qed.
+
+Lemma elems_inv_any l :
+  forallb elem_any l = true ->
+  map elem_nv (map to_elem l) = l /\ Forall elem_wf_any (map to_elem l).
+Proof.
+  induction l as [|x r IH]; [split; [reflexivity|constructor]|].
+  cbn [forallb]. intros H. apply andb_true_iff in H as [Hx Hr].
+  destruct (IH Hr) as [E F]. destruct (to_elem_inv_any x Hx) as [Ex Fx].
+  cbn [map]. rewrite E, Ex. split; [reflexivity|]. constructor; assumption.
+Qed.
+
+Theorem list_roundtrip_any v :
+  join_keeps_blank_last = true -> wfb_any v = true ->
+  exists txt, join_from_lists 0 v = Some txt /\ split_into_lists txt = trim v.
+Proof.
+  intros Ej. destruct v as [s|l]; cbn [wfb_any].
+  - intros H. exists (escape s).
+    destruct (string_roundtrip s H) as [E1 E2]. split; assumption.
+  - intros H. apply andb_true_iff in H as [H1 H3].
+    destruct (elems_inv_any l H3) as [E F].
+    assert (Hne : map to_elem l <> []) by (destruct l; discriminate).
+    destruct (elems_roundtrip_any _ Ej Hne F) as [J P].
+    rewrite E in J, P. eexists. split; eassumption.
+Qed.
+
+Lemma wfb_wfb_any v : wfb v = true -> wfb_any v = true.
+Proof.
+  destruct v as [s|l]; cbn [wfb wfb_any]; [auto|].
+  intros H. apply andb_true_iff in H as [H H3]. apply andb_true_iff in H as [H1 _]. rewrite H1. cbn [andb].
+  revert H3. apply forallb_impl. intros [s|l']; cbn [elem_ok elem_any]; [auto|].
+  intros H'. apply andb_true_iff in H' as [H' H3']. apply andb_true_iff in H' as [H1' _]. rewrite H1', H3'. reflexivity.
+Qed.
+
+(* the domain of the cell round trip ON THE TREE AT HAND: the property's (wfb) and, once the join keeps an
+   empty last element, every list of the shape *)
+Definition wfb_tree (v : nv) : bool := if join_keeps_blank_last then wfb_any v else wfb v.
+
+Theorem list_roundtrip_tree v :
+  wfb_tree v = true -> exists txt, join_from_lists 0 v = Some txt /\ split_into_lists txt = trim v.
+Proof.
+  unfold wfb_tree. destruct join_keeps_blank_last eqn:E.
+  - apply list_roundtrip_any. exact E.
+  - apply list_roundtrip.
+Qed.
+
+Lemma wfb_wfb_tree v : wfb v = true -> wfb_tree v = true.
+Proof. unfold wfb_tree. destruct join_keeps_blank_last; [apply wfb_wfb_any|auto]. Qed.
+
+(* the witness: ["a", ""] *)
+Definition w_blank_last : nv := Lst [Str [97]; Str []].
+
+Definition blank_last_roundtrip_full : Prop :=
+  forall v, wfb_any v = true -> exists txt, join_from_lists 0 v = Some txt /\ split_into_lists txt = trim v.
+
+Lemma w_blank_last_join : join_from_lists 0 w_blank_last = Some (join_parts sep0 [[97]; []]).
+Proof.
+  change w_blank_last with (Lst (map Str [[97]; []])). rewrite (join_strs_parts 0 sep0); [|reflexivity].
+  cbn [map]. rewrite !escape_string_one_pass || idtac. reflexivity.
+Qed.
+
+Theorem blank_last_roundtrip_decided :
+  if join_keeps_blank_last then blank_last_roundtrip_full else ~ blank_last_roundtrip_full.
+Proof.
+  destruct join_keeps_blank_last eqn:E.
+  - intros v Hv. apply list_roundtrip_any; assumption.
+  - intros H. destruct (H w_blank_last eq_refl) as [txt [J P]].
+    rewrite w_blank_last_join, (join_parts_off_eq _ _ E) in J. injection J as <-.
+    vm_compute in P. discriminate P.
+Qed.
+
+(* the texts: [a, ""] is written  a||  and read back whole on the repaired tree, written  a|  and read back as
+   [a] on the other *)
+Theorem blank_last_witness :
+  wfb_any w_blank_last = true /\ wfb w_blank_last = false
+  /\ join_from_lists 0 w_blank_last
+     = Some (if join_keeps_blank_last then [97; sep0; sep0] else [97; sep0])
+  /\ split_into_lists [97; sep0; sep0] = w_blank_last
+  /\ split_into_lists [97; sep0] = Lst [Str [97]].
+Proof.
+  split; [reflexivity|]. split; [reflexivity|]. split.
+  - rewrite w_blank_last_join. destruct join_keeps_blank_last eqn:E.
+    + rewrite (join_parts_on_eq _ _ E). reflexivity.
+    + rewrite (join_parts_off_eq _ _ E). reflexivity.
+  - split; vm_compute; reflexivity.
+Qed.
 
 (* C08-3: a cell without an unescaped separator is a plain string, never a list *)
 Definition no_unescaped_sep (s : str) : Prop :=
